@@ -69,8 +69,14 @@ func NewBundleDescriptorFromBundle(b bpv7.Bundle, store *storage.Store) BundleDe
 // Sync this BundleDescriptor to the store.
 func (descriptor BundleDescriptor) Sync() error {
 	if !descriptor.store.KnowsBundle(descriptor.Id.Scrub()) {
-		return descriptor.store.Push(*descriptor.bndl)
-	} else if bi, err := descriptor.store.QueryId(descriptor.Id.Scrub()); err != nil {
+		// A freshly pushed bundle must carry its constraints right away. Otherwise a duplicate reception finds a
+		// stored bundle without constraints, takes it for unknown and processes it a second time.
+		if err := descriptor.store.Push(*descriptor.bndl); err != nil || len(descriptor.Constraints) == 0 {
+			return err
+		}
+	}
+
+	if bi, err := descriptor.store.QueryId(descriptor.Id.Scrub()); err != nil {
 		return err
 	} else if len(descriptor.Constraints) == 0 {
 		return descriptor.store.Delete(descriptor.Id)
